@@ -6,6 +6,7 @@
 From Coq Require Import List ZArith Bool.
 From PV Require Import lib.Sx lib.Str model.TextNodes model.TextWrite model.TextRead model.TextStyle.
 From PV Require Import spec.SpecTextXml spec.SpecTextStyle proofs.TextStyleFacts.
+From PV Require Import proofs.TextPayloadFacts proofs.TextRoundtripFacts.
 Import ListNotations.
 Open Scope Z_scope.
 
@@ -61,6 +62,32 @@ Theorem C11_vtt_close_is_events : forall st, vtt_close st = concat (map render_t
 Proof. exact vtt_close_is_events. Qed.
 Print Assumptions C11_vtt_close_is_events.
 
+(* ---- round trips on the models: writer model -> strict parser -> reader model ----
+   For every node list with balanced flat spans (texts over XML Char, style dictionaries italics/bold/underline):
+   the payload is well-formed, the reader model returns balanced nodes, and the same visible characters carry the
+   same flags - italics through the three DFXP writers, italics + bold + underline through SAMI. *)
+Theorem C11_dfxp_roundtrip_flags : forall region ns, nodes_ok plain_style ns = true -> flat_balanced ns = true ->
+  exists t, content_parse (dfxp_payload (extra_of region) ns) = Some t /\
+            ok_flags m_i ns (flat_map (dfxp_nodes true) t) = true /\
+            balanced (flat_map (dfxp_nodes true) t) = true.
+Proof. exact dfxp_roundtrip_flags. Qed.
+Print Assumptions C11_dfxp_roundtrip_flags.
+
+Theorem C11_legacy_roundtrip_flags : forall ns, nodes_ok plain_style ns = true -> flat_balanced ns = true ->
+  exists t, content_parse (legacy_payload ns) = Some t /\
+            ok_flags m_i ns (flat_map (dfxp_nodes true) t) = true /\
+            balanced (flat_map (dfxp_nodes true) t) = true.
+Proof. exact legacy_roundtrip_flags. Qed.
+Print Assumptions C11_legacy_roundtrip_flags.
+
+Theorem C11_sami_roundtrip_flags : forall ns, nodes_ok plain_style ns = true -> flat_balanced ns = true ->
+  exists t, content_parse (sami_payload ns) = Some t /\
+            TextReadFacts.vis (flat_map TextReadFacts.tree_flat t) = TextReadFacts.vis (TextReadFacts.node_flat ns) /\
+            ok_flags m_ibu ns (flat_map (sami_nodes true) t) = true /\
+            balanced (flat_map (sami_nodes true) t) = true.
+Proof. exact sami_roundtrip_flags. Qed.
+Print Assumptions C11_sami_roundtrip_flags.
+
 (* ---- non-vacuity ---- *)
 Example C11_example_flat : flat_balanced ex_nodes = true.
 Proof. vm_compute. reflexivity. Qed.
@@ -75,3 +102,8 @@ Proof. split; vm_compute; reflexivity. Qed.
 
 Example C11_example_dfxp : snd (dfxp_run_tr [] false ex_nodes) = [true; false].
 Proof. vm_compute. reflexivity. Qed.
+
+Example C11_example_roundtrip :
+  nodes_ok plain_style ex_nodes = true /\
+  option_map (fun t => flags (flat_map (sami_nodes true) t)) (content_parse (sami_payload ex_nodes)) = Some (flags ex_nodes).
+Proof. split; vm_compute; reflexivity. Qed.
